@@ -92,6 +92,7 @@ package syntax
 // general lookup on every rune below 128 (and the set denotes the same members as before).
 //@ func (c *CharSet) prepareASCIIBitmap()
 //@   props C16
+//@   requires[depth] c != nil ==> SubDepth(c) >= 0
 //@   requires c != nil ==> RangesSorted(c.ranges) && (forall i int :: 0 <= i && i < len(c.categories) ==> CatKnown(c.categories[i].Cat)) && (c.sub != nil ==> SetOK(c.sub))
 //@   modifies objs(CharSet).ascii
 //@   ensures[frame] c != nil ==> forall q *CharSet {SubDepth(q)} :: old(allocated(q)) && q != c && SubDepth(q) >= SubDepth(c) ==> q.ascii == old(q.ascii)
